@@ -27,6 +27,12 @@ func (s Stamp) MarshalText() ([]byte, error) { return []byte("stamp:" + s.S), ni
 
 type MyStr string // named scalar
 type MyInt int32
+type Octet uint8 // named scalar of kind uint8
+
+// named slice types: lists to the builder, whatever encoding/json thinks of them
+type Blob []byte
+type Ints []int64
+type Strs []MyStr
 
 type MA struct {
 	A1 int64
@@ -46,6 +52,14 @@ var scalarKinds = []reflect.Type{
 	reflect.TypeOf(int64(0)), reflect.TypeOf(int32(0)), reflect.TypeOf(uint8(0)), reflect.TypeOf(""), reflect.TypeOf(false),
 	reflect.TypeOf(float64(0)), reflect.TypeOf(float32(0)), reflect.TypeOf(time.Time{}), reflect.TypeOf([]byte{}),
 	reflect.TypeOf(MyStr("")), reflect.TypeOf(MyInt(0)), reflect.TypeOf(Shade(0)), reflect.TypeOf(Stamp{}),
+	reflect.TypeOf(Octet(0)), reflect.TypeOf(uint16(0)), reflect.TypeOf(int8(0)),
+}
+
+// list shapes beyond "slice of a scalar kind": named slice types, slices of pointers, nested slices
+var listKinds = []reflect.Type{
+	reflect.TypeOf(Blob{}), reflect.TypeOf(Ints{}), reflect.TypeOf(Strs{}), reflect.TypeOf([]Octet{}),
+	reflect.TypeOf([]*string{}), reflect.TypeOf([]*int64{}), reflect.TypeOf([][]int64{}), reflect.TypeOf([]Blob{}),
+	reflect.TypeOf([]Shade{}), reflect.TypeOf([]Stamp{}), reflect.TypeOf([]time.Time{}), reflect.TypeOf([]bool{}),
 }
 
 var fieldNames = []string{"Alpha", "Beta", "Gamma", "Delta", "Eps", "Zeta", "Eta", "Theta"}
@@ -60,6 +74,9 @@ type GenSchema struct {
 }
 
 func (g *GenSchema) leafType(r *vh.Rng) reflect.Type {
+	if r.Chance(18) {
+		return listKinds[r.Intn(len(listKinds))] // (the builder accepts no pointer to a slice other than *[]byte)
+	}
 	t := scalarKinds[r.Intn(len(scalarKinds))]
 	switch r.Intn(6) {
 	case 0:
@@ -226,8 +243,11 @@ func shapeOf(t reflect.Type) string {
 	case reflect.Ptr:
 		return "ptr-" + shapeOf(t.Elem())
 	case reflect.Slice:
-		if t.Elem().Kind() == reflect.Uint8 {
+		if t == reflect.TypeOf([]byte{}) {
 			return "bytes"
+		}
+		if t.PkgPath() != "" {
+			return "named-slice-" + shapeOf(t.Elem())
 		}
 		return "slice-" + shapeOf(t.Elem())
 	case reflect.Struct:
